@@ -109,6 +109,16 @@ def ompBounds (n chunk : Nat) : List (Nat × Nat) :=
     let e := min (s + chunk) n
     if s == n then none else some (s, e))
 
+/-- the same bounds in the arithmetic the Cython code uses: `start_val`, `end_val`,
+    `ii`, `chunksize`, `length_all_outcomes` are `unsigned int` (wrap-around mod 2³²);
+    `number_parts = math.ceil(<double> length / chunksize)` is exact for 32-bit operands. -/
+def ompBounds32 (n chunk : UInt32) : List (UInt32 × UInt32) :=
+  let parts := (n.toNat + chunk.toNat - 1) / chunk.toNat
+  (List.range parts).filterMap (fun ii =>
+    let s := UInt32.ofNat ii * chunk
+    let e := if s + chunk ≤ n then s + chunk else n
+    if s == n then none else some (s, e))
+
 def ompParts {α : Type} (xs : List α) (chunk : Nat) : List (List α) :=
   (ompBounds xs.length chunk).map (fun (s, e) => (xs.drop s).take (e - s))
 
